@@ -49,4 +49,11 @@ theorem C06_legacy_unsafe :
     atomicOK C06Demo.legacyTrace = false ∧ firstUnsafe C06Demo.legacyTrace = some 7 ∧
     ¬ Safe (run (C06Demo.legacyTrace.take 11)) := by decide
 
+/-- a hard link instead of a copy in the incremental update: the "temporary" name is the checkpoint's own inode, the update
+    edits the live file in place and the final rename of two names of one file changes nothing — unsafe after the first write -/
+theorem C06_hardlink_unsafe :
+    let tr : List Sys := [ .openat 4 1 true false true, .mutate 4, .close 4, .rename 1 0, .mark,
+                           .link 0 1, .openat 4 1 true false false, .mutate 4, .mutate 4, .close 4, .rename 1 0, .mark ]
+    atomicOK tr = false ∧ firstUnsafe tr = some 8 := by decide
+
 end NautilusVerif
